@@ -112,3 +112,23 @@ Definition ieee_params (es nbits : Z) : Z * Z * Z :=
   let emax := 2 ^ (es - 1) - 1 in
   let emin := 1 - emax in
   (p, emin - p + 1, emax - p + 1).
+
+(* ---------------------------------------------------------------- counters of constant-bound range loops *)
+(* len(range(start, stop, step)), step <> 0 *)
+Definition range_len (start stop step : Z) : Z :=
+  if step >? 0 then (if start <? stop then (stop - start + step - 1) / step else 0)
+  else if step <? 0 then (if stop <? start then (start - stop - step - 1) / (- step) else 0)
+  else 0.
+
+(* emitter._range_counter_scalar: a C-style counter transiently reaches the first value past
+   `stop`: overshoot = start + len(range) * step; it is typed by
+   choose_storage(AbstractFormat(inf, 0, max(|start|, |overshoot|)).format()) *)
+Definition counter_bound (start stop step : Z) : Z :=
+  Z.max (Z.abs start) (Z.abs (start + range_len start stop step * step)).
+Definition counter_fmt (b : Z) : absfmt :=
+  AF EPInf (EFin 0) (BFin (RF false 0 b)) (BFin (RF true 0 b)) false false false false.
+Definition range_counter_scalar (start stop step : Z) : storage :=
+  choose_storage_scalar (counter_fmt (counter_bound start stop step)) false.
+
+(* an integer as a value *)
+Definition z2fl (z : Z) : fl := FFin (RF (z <? 0) 0 (Z.abs z)).
